@@ -28,18 +28,6 @@ Definition clause_same_sheet (c : case) : bool :=
   | _, _ => true
   end.
 
-(* known class F11: a loud comment with interpolation (it is not evaluated when compressed) *)
-Fixpoint comment_interp (st : state) (x : list N) : bool :=
-  match x with
-  | [] => false
-  | c :: r =>
-      match fst st, c, r with
-      | (Com | ComStar), 35, 123 :: _ => true
-      | _, _, _ => comment_interp (step st c) r
-      end
-  end.
-Definition known_comment_interp (c : case) : bool := comment_interp (N0, []) (c_src c).
-
 (* known class: text produced DURING evaluation (interpolation, `+` on strings) is
    formatted with the output style: list separators lose their space, numbers
    their leading zero - inside strings and concatenated tokens *)
@@ -53,4 +41,4 @@ Definition known_eval_text (c : case) : bool :=
 
 Definition run (c : case) : list N :=
   [ b2n (clause_same_outcome c); b2n (clause_same_message c); b2n (clause_same_sheet c);
-    b2n (known_comment_interp c); b2n (known_eval_text c) ].
+    b2n (known_eval_text c) ].
